@@ -718,18 +718,21 @@ fn get_where_filters(params: &EntityParams, prepared_query: &mut SingleQuery, t:
                                         v, operation, &value
                                     ));
                                 }
+                                //text is never written in the statement, it is bound as a parameter
                                 ParamValue::String(v) => {
+                                    let default = prepared_query.add_param(String::from(v), true);
                                     tab(&mut q, t + 1);
                                     q.push_str(&format!(
-                                        "WHEN '{}' {} {} THEN ",
-                                        v, operation, &value
+                                        "WHEN {} {} {} THEN ",
+                                        default, operation, &value
                                     ));
                                 }
                                 ParamValue::Binary(v) => {
+                                    let default = prepared_query.add_param(String::from(v), true);
                                     tab(&mut q, t + 1);
                                     q.push_str(&format!(
-                                        "WHEN '{}' {} {} THEN ",
-                                        v, operation, &value
+                                        "WHEN {} {} {} THEN ",
+                                        default, operation, &value
                                     ));
                                 }
                                 _ => unreachable!(),
